@@ -270,9 +270,7 @@ h("c16_receive_all_vs_decoder_q", "phy_mod.rs", PM, ["C16"], panic_props=["C16",
 h("c16_receive_all_sd2_le3_q", "phy_mod.rs", PM, ["C16"], panic_props=["C16", "C05"], timeout_s=1800, mem_gb=12, weight=2, functions=PHF,
   bounds="buffers of 0..=10 bytes of the shape [SC]? + 68 03 03 68 + symbolic rest (the SD2 frame with the non-canonical LE 3, 9 bytes); one receive_all_telegrams call; unwind 13",
   obligation="as c16_receive_all_vs_decoder_q")
-h("c16_receive_all_sd2_le11_q", "phy_mod.rs", PM, ["C16"], panic_props=["C16", "C05"], tier="thorough", timeout_s=3600, mem_gb=12, weight=3, functions=PHF,
-  bounds="buffers of 0..=18 bytes of the shape [SC]? + 68 0B 0B 68 + symbolic rest (the SD2 frame with the non-canonical LE 11, 17 bytes); unwind 21",
-  obligation="as c16_receive_all_vs_decoder_q")
+# c16_receive_all_sd2_le11_q (18 bytes, LE 11): stopped without verdict after 25 min / 10 GB on a loaded machine -> not registered (the function stays in phy_mod.rs for a later attempt)
 # c16_receive_all_sd2_shapes (LE symbolic 3..=11 in one harness, 18 bytes): out of memory after ~1000 s -> not registered; LE 3 and LE 11 are separate harnesses
 h("c16_receive_all_vs_decoder_t", "phy_mod.rs", PM, ["C16"], panic_props=["C16", "C05"], tier="thorough", timeout_s=7200, mem_gb=16, weight=4, functions=PHF,
   bounds="ANY buffer content of 0..=12 bytes (up to 12 telegrams); unwind 16", obligation="as _q")
